@@ -158,7 +158,7 @@ func famStress(w *World, c *Case, rng *rand.Rand) {
 	g := c.p("g", 8)
 	per := 2 + rng.Intn(3)
 	budget := 6 << 20
-	o := ScriptOpts{MaxMsgs: 3, MaxSize: 90000, Pacing: "eager", Status: true, Meta: true, BudgetLeft: &budget}
+	o := ScriptOpts{FlowControl: w.Cfg.RevisionOne(), MaxMsgs: 3, MaxSize: 90000, Pacing: "eager", Status: true, Meta: true, BudgetLeft: &budget}
 	specs := make([][]*RPCSpec, g)
 	for i := 0; i < g; i++ {
 		for j := 0; j < per; j++ {
@@ -286,3 +286,118 @@ func famStress(w *World, c *Case, rng *rand.Rand) {
 }
 
 var _ = tunnelpb.ProtocolRevision_REVISION_ONE
+
+// ---- closerace: Close() while a frame write is parked inside the carrier ----
+
+func init() {
+	families["closerace"] = famCloseRace
+	freeFamilies["closerace"] = true
+	prev := listers["C15"]
+	listers["C15"] = func(tier string, seed int64) []Case {
+		out := prev(tier, seed)
+		rng := rand.New(rand.NewSource(seed*409 + 151))
+		n := 12
+		if tier == "thorough" {
+			n = 400
+		}
+		for i := 0; i < n; i++ {
+			cfg := WorldCfg{Dir: "forward", CapFrames: 1}
+			if i%4 == 3 {
+				cfg.ClientNoFC, cfg.ServerNoFC = true, true
+			}
+			out = append(out, Case{Family: "closerace", Seed: rng.Int63(), Cfg: cfg, P: map[string]int{"what": i % 3}})
+		}
+		return out
+	}
+}
+
+// famCloseRace: RPC A's request write is parked inside the (bounded, held)
+// carrier; another goroutine closes the channel (or queries it); meanwhile the
+// peer completes RPC B, whose frames the receive loop must still deliver, and
+// Err()/Done() must stay responsive. Real-time steps, forward tunnels.
+func famCloseRace(w *World, c *Case, rng *rand.Rand) {
+	if err := w.Open(nil); err != nil {
+		w.Violate("C11", "open-failed", "open: %v", err)
+		w.Finish()
+		return
+	}
+	w.Conn.SetGated(true)
+	var holdToServer, stop atomic.Bool
+	pump := make(chan struct{})
+	go func() {
+		defer close(pump)
+		for !stop.Load() {
+			for _, l := range w.Conn.Links() {
+				l.Release(S2C, 100)
+				if !holdToServer.Load() {
+					l.Release(C2S, 100)
+				}
+			}
+			time.Sleep(100 * time.Microsecond)
+		}
+	}()
+	step := func() { time.Sleep(4 * time.Millisecond) }
+	b := &RPCSpec{ID: "b", Method: "ServerStream", Client: []Op{{K: "open"}, {K: "send", N: 5}, {K: "close"}, {K: "recvall"}, {K: "trailer"}},
+		Handler: []Op{{K: "recv"}, {K: "sync", Name: "go"}, {K: "settrl", MD: metadata.MD{"t": {"1"}}}, {K: "ret"}}}
+	w.Env.StartRPC(context.Background(), w.Ch, b)
+	step()
+	holdToServer.Store(true)
+	a := &RPCSpec{ID: "a", Method: "ClientStream", Client: []Op{{K: "open"}, {K: "send", N: 40000}, {K: "close"}, {K: "recvall"}}, Handler: []Op{{K: "recvall"}, {K: "ret"}}}
+	w.Env.StartRPC(context.Background(), w.Ch, a)
+	step()
+	what := c.p("what", 0)
+	closed := make(chan struct{})
+	go func() {
+		defer close(closed)
+		switch what {
+		case 0, 1:
+			w.TCh.Close()
+		}
+	}()
+	step()
+	// the peer completes B (its handler returns; headers + close travel to the client)
+	w.Env.Signal("go")
+	step()
+	step()
+	w.Stat("closerace_runs", 1)
+	// Err() / Done() must answer although a write is parked and Close() is in progress
+	errDone := make(chan struct{})
+	go func() { _ = w.TCh.Err(); close(errDone) }()
+	select {
+	case <-errDone:
+	case <-time.After(2 * time.Second):
+		w.Violate("C15", "channel-query-blocked-by-parked-write", "Err() did not return within 2 s while a frame write was parked inside the carrier and Close() was called")
+	}
+	// B's outcome must have been delivered by the receive loop (OK, or Canceled if Close() got there first)
+	// (polled for up to 3 s of real time so that a loaded machine cannot cause an alarm; with the
+	// receive loop blocked it never arrives while the write stays parked)
+	delivered := false
+	for i := 0; i < 1500 && !delivered; i++ {
+		for _, r := range w.Env.Log.Records() {
+			if r.RPC == "b" && r.Side == "client" && r.K == "recv" && r.RetSeq != 0 {
+				delivered = true
+			}
+		}
+		if !delivered {
+			time.Sleep(2 * time.Millisecond)
+		}
+	}
+	if !delivered {
+		w.Violate("C15", "receive-loop-blocked-by-close", "while a frame write of RPC a was parked inside the carrier and Close() was in progress, RPC b's result (already sent by the peer) was not delivered to its caller within 3 s")
+	}
+	holdToServer.Store(false)
+	step()
+	select {
+	case <-closed:
+	case <-time.After(5 * time.Second):
+		w.Violate("C15", "close-never-returns", "Close() did not return within 5 s after the carrier was released")
+	}
+	w.Conn.SetGated(false)
+	for _, l := range w.Conn.Links() {
+		l.ReleaseAll()
+	}
+	step()
+	stop.Store(true)
+	<-pump
+	w.Finish()
+}
